@@ -31,6 +31,9 @@ UNIVERSES = {
     "3x2": (["b", "a"], [[5, 3, 4], [1.5, 0.5]]),
     "2x2x2": (["c", "a", "b"], [[2, 1], ["q", "p"], [10, 20]]),
     "3x3": (["a", "b"], [[3, 1, 2], [9, 7, 8]]),
+    # ints and floats within one argument; tuples as values
+    "mixnum": (["a", "b"], [[1, 2.5, 3, 0.5], ["y"]]),
+    "tupval": (["s", "b"], [[(2, 3), (1, 4)], [20, 10]]),
     "2x2x2x2": (["d", "a", "c", "b"], [[1, 2], [4, 3], ["u", "v"], [0.5, 0.25]]),
 }
 KINDS = ["num", "bool", "str", "tuple2", "list", "array", "dict", "dataset",
@@ -47,7 +50,7 @@ def orders(sub):
 
 
 def cases(tier, seed):
-    unis = ["1s", "1n", "2x2", "3x2", "2x2x2"] + (
+    unis = ["1s", "1n", "2x2", "3x2", "2x2x2", "mixnum", "tupval"] + (
         ["3x3", "2x2x2x2"] if tier == "thorough" else [])
     j = 0
     for u in unis:
@@ -71,8 +74,11 @@ def cases(tier, seed):
                            "shuffle": [False, True, 3][(j // 2) % 3],
                            "flat": j % 5 == 0,
                            "split": kind == "tuple2" and j % 2 == 0,
-                           "keyrot": j % 3}
-                    if t == 0 and len(names) >= 2:
+                           "keyrot": j % 3,
+                           # the cases handed over as a one-shot iterator
+                           "oneshot": j % 4 == 1}
+                    if t == 0 and len(names) >= 2 and u != "tupval":
+                        # (tuples cannot be coordinate labels of a Dataset)
                         # the same request through a long-lived Runner that
                         # ran something else before (other argument order
                         # given for that run only)
@@ -84,6 +90,8 @@ def cases(tier, seed):
     for u in unis:
         for kind in ("num", "dataset"):
             for api in ("combo", "case", "to_ds"):
+                if u == "tupval" and api == "to_ds":
+                    continue
                 for sh in (False, True):
                     yield {"uni": u, "overlap": True, "kind": kind, "api": api,
                            "shuffle": sh, "cases": [0, 1]}
@@ -127,8 +135,10 @@ def check_case(case):
                     items = list(zip(names, c))
                     r = (case["keyrot"] * n) % len(items)
                     dcases.append(dict(items[r:] + items[:r]))
-                got = xyz.combo_runner(f, combos, cases=dcases,
-                                       flat=case["flat"], **kw)
+                got = xyz.combo_runner(
+                    f, combos, flat=case["flat"], **kw,
+                    cases=(c_ for c_ in dcases) if case.get("oneshot")
+                    else dcases)
                 flat = case["flat"]
                 # axis order = key order of the first case
                 ax_names = list(dcases[0].keys())
@@ -168,7 +178,9 @@ def check_case(case):
                     # a single argument: bare values and a bare name
                     tcases = [c[0] for c in chosen]
                     fa = names[0] if case["keyrot"] == 2 else names
-                got = xyz.case_runner(f, fa, tcases, combos=combos, **kw)
+                got = xyz.case_runner(
+                    f, fa, iter(tcases) if case.get("oneshot") else tcases,
+                    combos=combos, **kw)
                 flat = True
                 ax_names = names
         except Exception as e:
